@@ -4,4 +4,5 @@ package main
 func genAll(repo string) {
 	genCodec(repo)
 	genResolver(repo)
+	genGeom(repo)
 }
